@@ -218,6 +218,20 @@ Proof. vm_compute. reflexivity. Qed.
 Lemma unsent_indication_no_longer_blocks : monitor (run cfgA (init cfgA) w_unsent) = None.
 Proof. vm_compute. reflexivity. Qed.
 
+(* the same defect (procedure state survives the disconnect) seen through a Write Command: the
+   0xFE is not visible, the monitor notices the missing response of the silently refused procedure *)
+Definition w_disc_wc := [Cccd 2; Write [5]; Disc; Cccd 2; WriteCmd [0]; Out 7].
+Lemma deadlock_after_disconnect_write_command :
+  monitor (run cfgA (init cfgA) w_disc_wc) = Some (5%nat, t_response_missing).
+Proof. vm_compute. reflexivity. Qed.
+
+(* "a Read Request resets the procedure" seen through a Write Command: the second procedure is
+   accepted silently and the pending response then carries its opcode instead of the first one's *)
+Definition w_read_wc := [Cccd 2; Write [3; 1]; Read; WriteCmd [255]; Out 64].
+Lemma read_resets_procedure_write_command :
+  monitor (run cfgA (init cfgA) w_read_wc) = Some (4%nat, t_response_opcode).
+Proof. vm_compute. reflexivity. Qed.
+
 Theorem never_deadlocks_refuted : ~ never_deadlocks_full.
 Proof.
   intros H. specialize (H cfgA w_disc). rewrite deadlock_after_disconnect in H. discriminate.
